@@ -321,7 +321,7 @@ class Fn:
         args = tuple(self.origin_operand(a, stack) for a in t["args"])
         return self.call_expr(bb, t, args, len(stack))
 
-    def call_expr(self, bb, t, args, stack_depth=0):
+    def call_expr(self, bb, t, args, stack_depth=0, forward=True):
         """value of the call at bb given its (already resolved) argument expressions"""
         callee = t.get("rpath") or t["callee"]
         generic = t["callee"]
@@ -358,7 +358,7 @@ class Fn:
         # accessor inlining: a local straight-line function without effects is replaced by its body
         if t["res"] == "item" and callee in self.facts.fns and len(stack) < 40:
             g = self.facts.fns[callee]
-            if g is not self and g.is_simple_accessor():
+            if g is not self and (g.is_simple_accessor() or (forward and g.is_place_forwarder())):
                 r = g.origin_local(0)
                 if not mentions(r, lambda s: s[0] in ("var", "unknown", "built", "env")):
                     return subst_params(r, list(args))
@@ -463,6 +463,35 @@ class Fn:
                 if s["k"] == "assign" and "deref" in s["place"]["p"]:
                     return False
         self._simple = True
+        return True
+
+    def is_place_forwarder(self):
+        """a straight-line function returning a reference computed from its arguments (`&self.shards[self.index_of(t)]`):
+        for value provenance the call is the place it returns.  (Not used by sym.py, which inlines such helpers
+        itself and keeps the events inside them.)"""
+        if hasattr(self, "_fwd"):
+            return self._fwd
+        self._fwd = False
+        live = self.live_blocks()
+        if len(live) > 8 or self.kind == "Closure" or not (self.rec.get("ret") or "").startswith("&"):
+            return False
+        for b in live:
+            t = self.term(b)
+            if t["k"] == "switch":
+                return False
+            if t["k"] == "assert" and t.get("msg") not in ("Overflow", "DivisionByZero", "RemainderByZero", "BoundsCheck"):
+                return False
+            if t["k"] == "call":
+                c = t["callee"]
+                if c in TRANSPARENT_CALLS or c in ("std::clone::Clone::clone", "std::ops::Index::index", "std::ops::IndexMut::index_mut"):
+                    continue
+                if t["res"] == "item" and (t.get("rpath") in self.facts.fns):
+                    continue
+                return False
+            for s in self.blocks[b]["stmts"]:
+                if s["k"] == "assign" and "deref" in s["place"]["p"]:
+                    return False
+        self._fwd = True
         return True
 
     def place_origin(self, p):
